@@ -28,6 +28,7 @@ func init() {
 			{ID: "C06.6", Desc: "every store of an origin response is under a positive evaluator answer", Run: ruleC06_6, MinSites: 2},
 			{ID: "C06.7", Desc: "entry-write error gates the index write", Run: ruleC06_7, MinSites: 1},
 			{ID: "C06.8", Desc: "the evaluator receives the judged response's directives and the request's directives on every path", Run: func(c *Ctx) { ruleEvaluatorDirectives(c, "C06.8") }, MinSites: 2},
+			{ID: "C06.10", Desc: "the 304 write-back is skipped when the request or the 304 carries no-store", Run: ruleC06_10, MinSites: 1},
 			{ID: "C06.9", Desc: "storability depends on the request only through no-store", Run: func(c *Ctx) { ruleEvaluatorRequestDirectives(c, "C06.9") }, MinSites: 1},
 		},
 	})
@@ -482,5 +483,68 @@ func ruleC06_7(c *Ctx) {
 		c.Fail("C06.7", "entry-write-error", desc, where+": index write at "+c.P.InstrPos(wi)+" reachable with the entry-write error set", where)
 	} else {
 		c.Pass("C06.7", "entry-write-error", desc, where)
+	}
+}
+
+// ruleC06_10: the storability evaluator guards every store of an origin response (C06.2, C06.6); the write-back of the
+// freshened stored response after a 304 is not an origin response and is not judged by it. Under a request no-store, and
+// under a 304 that itself carries no-store, that write-back must be unreachable in the validation handler.
+func ruleC06_10(c *Ctx) {
+	if !c.Need("C06.10", "validationHandler", "storeResp") {
+		return
+	}
+	vh := c.A.F("validationHandler")
+	isWriteBack := func(in ssa.Instruction) bool {
+		if !c.An.CallsRole(in, "storeResp") {
+			return false
+		}
+		_, args := recvAndArgs(callOf(in))
+		for _, a := range args {
+			if isHTTPResponsePtr(a.Type()) {
+				k := c.An.ResponseKinds(a)
+				return k["stored"] && !k["upstream"]
+			}
+		}
+		return false
+	}
+	n := 0
+	instrsOf(vh, func(in ssa.Instruction) {
+		if isWriteBack(in) {
+			n++
+		}
+	})
+	if n == 0 {
+		c.Pass("C06.10", "no-store-write-back", "no write-back of the stored response in the validation handler", c.P.ShortName(vh))
+		return
+	}
+	for _, row := range []struct{ name, atom, witness string }{
+		{"request", "rq.no-store", "a validation forced by a request carrying no-store, answered 304 with a new field: the field is written to the store and served to later requests"},
+		{"response-304", "up.no-store", "a 304 carrying `Cache-Control: no-store` is merged into the entry and written back; the entry (now saying no-store itself) keeps being served"},
+	} {
+		as := func(a *Atom) (bool, bool) {
+			if a.Key == row.atom {
+				return true, true
+			}
+			if strings.HasPrefix(a.Key, "nil:field:") && c.An.collaboratorNonNil(a.Key) {
+				return false, true
+			}
+			return false, false
+		}
+		pr := c.An.Prune(vh, as)
+		live := ""
+		pr.LiveInstrs(func(in ssa.Instruction) {
+			if isWriteBack(in) {
+				live = c.P.InstrPos(in)
+			}
+		})
+		desc := "under " + row.atom + " the freshened response is not written to the store"
+		switch {
+		case !pr.Used[row.atom]:
+			c.Fail("C06.10", "no-store-write-back row="+row.name, desc, c.P.ShortName(vh)+": the handler never looks at "+row.atom+". Witness: "+row.witness)
+		case live != "":
+			c.Fail("C06.10", "no-store-write-back row="+row.name, desc, live+": the write-back stays reachable under "+row.atom+"=T. Witness: "+row.witness)
+		default:
+			c.Pass("C06.10", "no-store-write-back row="+row.name, desc, c.P.ShortName(vh))
+		}
 	}
 }
